@@ -76,12 +76,18 @@ func (h *LoggingMiddleware) ServeHTTP(w http.ResponseWriter, r *http.Request) {
 			remoteAddr = clientAddr
 		}
 
+		statusCode := writer.statusCode
+		if !writer.responseStarted && errors.Is(r.Context().Err(), context.Canceled) {
+			// The client went away before anything was sent to it.
+			statusCode = StatusClientClosedRequest
+		}
+
 		attrs := []slog.Attr{
 			slog.String("host", r.Host),
 			slog.Int("port", port),
 			slog.String("path", r.URL.Path),
 			slog.String("request_id", r.Header.Get("X-Request-ID")),
-			slog.Int("status", writer.statusCode),
+			slog.Int("status", statusCode),
 			slog.String("service", loggingRequestContext.Service),
 			slog.String("target", loggingRequestContext.Target),
 			slog.Int64("duration", elapsed.Nanoseconds()),
@@ -120,22 +126,25 @@ func (h *LoggingMiddleware) retrieveCustomHeaders(headerNames []string, header h
 
 type loggerResponseWriter struct {
 	http.ResponseWriter
-	statusCode   int
-	bytesWritten int64
+	statusCode      int
+	bytesWritten    int64
+	responseStarted bool
 }
 
 func newLoggerResponseWriter(w http.ResponseWriter) *loggerResponseWriter {
-	return &loggerResponseWriter{w, http.StatusOK, 0}
+	return &loggerResponseWriter{w, http.StatusOK, 0, false}
 }
 
 // WriteHeader is used to capture the status code
 func (r *loggerResponseWriter) WriteHeader(statusCode int) {
 	r.statusCode = statusCode
+	r.responseStarted = true
 	r.ResponseWriter.WriteHeader(statusCode)
 }
 
 // Write is used to capture the amount of data written
 func (r *loggerResponseWriter) Write(b []byte) (int, error) {
+	r.responseStarted = true
 	bytesWritten, err := r.ResponseWriter.Write(b)
 	r.bytesWritten += int64(bytesWritten)
 	return bytesWritten, err
@@ -150,6 +159,7 @@ func (r *loggerResponseWriter) Hijack() (net.Conn, *bufio.ReadWriter, error) {
 	con, rw, err := hijacker.Hijack()
 	if err == nil {
 		r.statusCode = http.StatusSwitchingProtocols
+		r.responseStarted = true
 	}
 	return con, rw, err
 }
